@@ -274,7 +274,8 @@ def run_history(hist: List[list]) -> Dict[str, Any]:
 
 def _worker_main():
     data = json.load(sys.stdin)
-    fn = {"hist": run_history, "meta": run_meta, "loop": run_loop, "roles": run_roles}
+    fn = {"hist": run_history, "meta": run_meta, "loop": run_loop, "roles": run_roles, "clone": run_clone, "grow": run_grow,
+          "lateclass": run_lateclass}
     out = {"tbl": class_table(), "res": []}
     import gc
     import test.dataset.university_ontology_like_classes  # noqa  (fixed set of Symbol classes per worker)
@@ -517,6 +518,199 @@ def run_roles(payload) -> Dict[str, Any]:
             del c
         gc.collect()
     return {"rows": rows}
+
+
+def run_clone(payload) -> Dict[str, Any]:
+    """C14, descriptor path: an instance is shallow-copied (copy.copy goes through Symbol.__new__, the clone shares the
+    managed container objects), the template is dropped and collected (or kept), then a relation is asserted through
+    the CLONE's managed field.  It has to be recorded for the clone, with its inverse, exactly as for a fresh instance:
+    the template must not leave a (dead) owner reference behind that suppresses or redirects it."""
+    import copy
+    import gc
+    import weakref
+    from krrood.entity_query_language.symbol_graph import SymbolGraph
+    from test.dataset.university_ontology_like_classes import Company, Person
+
+    gc.collect()
+    SymbolGraph().clear()
+    SymbolGraph()
+    problems = []
+
+    def rels(*xs):
+        num = {id(x): k for k, x in enumerate(xs)}
+        return sorted([num[id(r.source.instance)], r.wrapped_field.name, num[id(r.target.instance)]]
+                      for r in SymbolGraph().relations()
+                      if id(r.source.instance) in num and id(r.target.instance) in num)
+
+    for rnd in range(payload["rounds"]):
+        if payload["side"] == "person":
+            template = Person(name=f"t{rnd}")
+            for k in range(payload["before"]):
+                template.member_of.append(Company(name=f"old{rnd}_{k}"))
+            clone = copy.copy(template)
+            clone.name = f"clone{rnd}"
+        else:
+            template = Company(name=f"t{rnd}")
+            for k in range(payload["before"]):
+                template.members.add(Person(name=f"old{rnd}_{k}"))
+            clone = copy.copy(template)
+            clone.name = f"clone{rnd}"
+        wt = weakref.ref(template)
+        if payload["drop_template"]:
+            del template
+            gc.collect()
+            # (with earlier relations the inverse fields of the old objects still reference the template: user references)
+            if wt() is not None and payload["before"] == 0:
+                problems.append(f"round {rnd}: the template was not collected")
+        if payload["sweep"]:
+            SymbolGraph().remove_dead_instances()
+        if payload["side"] == "person":
+            other = Company(name=f"c{rnd}")
+            clone.member_of.append(other)
+            expected = [[0, "member_of", 1], [1, "members", 0]]
+            inverse_ok = any(x is clone for x in other.members)
+        else:
+            other = Person(name=f"p{rnd}")
+            clone.members.add(other)
+            expected = [[0, "members", 1], [1, "member_of", 0]]
+            inverse_ok = any(x is clone for x in other.member_of)
+        found = rels(clone, other)
+        if found != expected:
+            problems.append(f"round {rnd}: relations between the clone (0) and the new object (1): {found}, expected {expected}")
+        if not inverse_ok:
+            problems.append(f"round {rnd}: the inverse field of the new object does not contain the clone")
+        del clone, other
+        if not payload["drop_template"]:
+            del template
+        gc.collect()
+    return {"problems": problems}
+
+
+def run_grow(payload) -> Dict[str, Any]:
+    """C20 / C13: ONE query object whose expression tree GROWS between evaluations (evaluate, add a conclusion that introduces a
+    new domain-less variable, evaluate again -- the rule-learning workflow), then everything is dropped: every instance has to
+    be reclaimed, later domain-less variables must not range over them, the symbol graph is back to its size."""
+    import gc
+    import weakref
+    from test.dataset.semantic_world_like_classes import Body, Container, Drawer, FixedConnection, Handle, View
+    from krrood.entity_query_language.conclusion import Add
+    from krrood.entity_query_language.entity import entity, let, inference
+    from krrood.entity_query_language.quantify_entity import an
+    from krrood.entity_query_language.symbol_graph import SymbolGraph
+
+    gc.collect()
+    SymbolGraph().clear()
+    SymbolGraph()
+    problems = []
+
+    def sizes():
+        sg = SymbolGraph()
+        return [len(sg._instance_graph.nodes()), len(sg._instance_index), sum(len(v) for v in sg._class_to_wrapped_instances.values())]
+
+    before = sizes()
+    for rnd in range(payload["rounds"]):
+        container = Container(f"container_{rnd}", size=2)
+        handle = Handle(f"handle_{rnd}")
+        connection = FixedConnection(container, handle)
+        refs = {"container": weakref.ref(container), "handle": weakref.ref(handle), "connection": weakref.ref(connection)}
+        body = let(Body, domain=None)
+        fixed_connection = let(FixedConnection, domain=None)
+        query = an(entity(views := let(View, domain=None), body == fixed_connection.parent))
+
+        def add_rule():
+            with query:
+                Add(views, inference(Drawer)(handle=let(Handle, domain=None), container=body))
+
+        results = []
+        if payload["extend_after"] > 0:
+            for _ in range(payload["extend_after"]):
+                results.append(list(query.evaluate()))
+            add_rule()
+        else:
+            add_rule()
+        for _ in range(payload["evaluations"]):
+            results.append(list(query.evaluate()))
+        if not results[-1] or not isinstance(results[-1][0], Drawer):
+            problems.append(f"round {rnd}: the extended query did not infer a Drawer: {results[-1]!r}"[:200])
+        else:
+            refs["drawer"] = weakref.ref(results[-1][0])
+        del container, handle, connection, body, fixed_connection, views, query, results, add_rule
+        gc.collect()
+        seen = list(an(entity(let(Body, domain=None))).evaluate()) + list(an(entity(let(View, domain=None))).evaluate())
+        SymbolGraph().remove_dead_instances()
+        gc.collect()
+        SymbolGraph().remove_dead_instances()
+        alive = sorted(k for k, r in refs.items() if r() is not None)
+        if alive:
+            problems.append(f"round {rnd}: still alive after the program dropped everything: {alive}")
+        if seen:
+            problems.append(f"round {rnd}: later domain-less variables still range over {len(seen)} dropped instances")
+        del seen
+    after = sizes()
+    if after != before:
+        problems.append(f"the symbol graph grew: nodes / id index / per-class lists {before} -> {after}")
+    return {"problems": problems}
+
+
+def run_lateclass(payload) -> Dict[str, Any]:
+    """C13: the class hierarchy GROWS between evaluations: a domain-less variable over T is evaluated, then a new subclass of T
+    (or of a subclass) is defined and instantiated, then T is queried again -- registry level, a fresh EQL query, and the query
+    object that was evaluated before."""
+    import gc
+    from dataclasses import dataclass
+    from krrood.entity_query_language.entity import entity, let
+    from krrood.entity_query_language.quantify_entity import an
+    from krrood.entity_query_language.symbol_graph import SymbolGraph
+
+    cl, _ = _classes()
+    gc.collect()
+    if payload.get("clear_first", True):
+        SymbolGraph().clear()
+        SymbolGraph()
+    problems = []
+    T = cl[payload["T"]]
+    parent = cl[payload["parent"]]
+    keep = [T(n=1, uid=1), parent(n=2, uid=2)]
+    q = an(entity(let(T, None)))
+    first = sorted(x.uid for x in q.evaluate())
+    SymbolGraph().remove_dead_instances()
+    list(SymbolGraph().get_instances_of_type(T))
+    run_lateclass.counter = getattr(run_lateclass, "counter", 0) + 1
+    Late = dataclass(eq=False)(type(f"Late{run_lateclass.counter}", (parent,), {}))
+    keep.append(Late(n=3, uid=3))
+    expected = sorted(x.uid for x in keep if isinstance(x, T))
+    got = {
+        "registry": sorted(x.uid for x in SymbolGraph().get_instances_of_type(T)),
+        "fresh query": sorted(x.uid for x in an(entity(let(T, None))).evaluate()),
+        "same query object again": sorted(x.uid for x in q.evaluate()),
+    }
+    for how, g in got.items():
+        if g != expected:
+            problems.append(f"{how}: instances {g}, expected {expected} (before the new subclass: {first})")
+    del keep, q
+    gc.collect()
+    SymbolGraph().remove_dead_instances()
+    return {"problems": problems}
+
+
+def scenario_jobs(rep: Report, kind: str, payloads: List[dict], explanation: str) -> int:
+    """run python-level scenario jobs (clone / grow / lateclass); every reported problem is a concrete counterexample"""
+    if not payloads:
+        return 0
+    _, res = run_jobs([(kind, p) for p in payloads], chunk=3)
+    bad = 0
+    for p, r in zip(payloads, res):
+        rep.count(kind + ":" + json.dumps(p, sort_keys=True), True)
+        probs = [r["fatal"]] if "fatal" in r else r["problems"]
+        if probs:
+            bad += 1
+            if bad <= 2:
+                rep.violation({"kind": "counterexample", kind: p, "impl": probs[:6],
+                               "python": "import json; from harness import c13\n"
+                                         f"print(json.dumps(c13.run_{kind}({p!r}), indent=1))   # run with ./check's PYTHONPATH",
+                               "explanation": explanation})
+    rep.extra[kind] = {"cases": len(payloads), "failed": bad}
+    return bad
 
 
 # ------------------------------------------------------------------------------------------------ model side
@@ -859,7 +1053,7 @@ def replay_findings(rep: Report, prop: str, model_ok: bool, accept_all: Dict[str
 
 ACCEPT = {"K_clear": "C13-d"}
 TRUSTED = [
-    "source pins pins/registry.json (19 methods mirrored by the hand model but not translated: Variable domain plumbing, HashedIterable / "
+    "source pins pins/registry.json (29 methods mirrored by the hand model but not translated: Variable domain plumbing, HashedIterable / "
     "HashedValue identity, let / entity / an, SymbolicExpression / RWXNode registration, WrappedInstance.__eq__/__hash__)",
     "translator/t_registry.py (fail-closed statement-idiom translator: symbol_graph.py, utils.recursive_subclasses, predicate.Symbol.__new__, "
     "entity let-domain, hashed_data.__iter__, symbolic evaluate, singleton -> Gen/Registry.v) and its idiom table Onto/RegistryIdioms.v",
@@ -949,6 +1143,20 @@ def run(tier: str, seed: int, replay=None) -> int:
     rep.extra["reuse"] = reuse_stats(hists, results)
     rep.extra["known_finding_instances"] = inst
     rep.extra["codes"] = {str(c): list(codes.values()).count(c) for c in (0, 1, 2, 3)}
+    # scenario families outside the history machine: the class hierarchy / the expression tree grows between evaluations
+    if replay and replay.get("lateclass") is not None:
+        late, grow = [replay["lateclass"]], []
+    elif replay and replay.get("grow") is not None:
+        late, grow = [], [replay["grow"]]
+    elif replay:
+        late, grow = [], []
+    else:
+        late = [{"T": t, "parent": p} for t, p in ((0, 0), (0, 1), (1, 3), (2, 3), (6, 6), (0, 7), (0, 5))]
+        grow = [{"rounds": 2, "extend_after": e, "evaluations": n} for e, n in ((0, 2), (1, 1), (2, 2))]
+    scenario_jobs(rep, "lateclass", late, "a subclass of T defined AFTER a domain-less variable over T was evaluated: its instances "
+                  "have to be in the range of every later evaluation over T")
+    scenario_jobs(rep, "grow", grow, "one query object evaluated, extended with a conclusion that introduces a new domain-less variable, "
+                  "evaluated again, everything dropped: later domain-less variables must not range over the dropped instances")
     rep.samples = [{"case": h, "impl_last": r.get("steps", [{}])[-1]} for h, r in list(zip(hists, results))[:: max(1, len(hists) // 5)]][:5]
     if not (replay and replay.get("case") is not None):
         replay_findings(rep, PROP, model_ok, ACCEPT)
